@@ -311,7 +311,7 @@ def exportable(draw, depth=2, tail=True, allow_known=False):
         return "%s%d" % (p, names[0])
 
     def leaf(ints):
-        opts = ["int", "int", "float", "varint", "bytes", "bytesref", "pstr", "pascal", "cstr", "flag", "const", "constint", "padding", "padded", "rebuild", "default", "hex",
+        opts = ["int", "int", "float", "varint", "bytes", "bytesref", "pstr", "pascal", "cstr", "flag", "const", "constint", "constframed", "padding", "padded", "rebuild", "default", "hex",
                 "array", "arrayref", "parray", "prefixed", "fixedsized", "runtil", "docs", "pass", "if", "bitstruct"]
         if allow_known:
             opts = ["int", "bytes", "enum", "flagsenum", "nullterm", "pointer", "cstr16", "prefixed-incl", "ite"]
@@ -342,6 +342,20 @@ def exportable(draw, depth=2, tail=True, allow_known=False):
             return ["const", draw(st.binary(min_size=1, max_size=3)), None]
         if o == "constint":
             return ["const", draw(st.integers(0, 200)), draw(st.sampled_from([B1, ["int", 2, False, "l", "alias"]]))]
+        if o == "constframed":
+            # a constant whose encoding is more than the constant's own bytes (length prefix, terminator, padding, text encoding)
+            v = draw(st.binary(min_size=1, max_size=3).filter(lambda b: b"\x00" not in b))
+            form = draw(st.sampled_from(["prefixed", "nullterm", "padded", "bytes", "cstr", "pascal"]))
+            if form == "prefixed":
+                return ["const", v, ["prefixed", B1, ["gbytes"], False]]
+            if form == "nullterm":
+                return ["const", v, ["nullterm", ["gbytes"], b"\x00", False, True, True]]
+            if form == "padded":
+                return ["const", v, ["padded", len(v) + draw(st.integers(0, 2)), ["bytes", len(v)], b"\x00"]]
+            if form == "bytes":
+                return ["const", v, ["bytes", len(v)]]
+            txt = draw(st.text(alphabet="abZ9", min_size=1, max_size=3))
+            return ["const", txt, ["cstr", "ascii"] if form == "cstr" else ["pascal", B1, "ascii"]]
         if o == "padding":
             return ["padding", draw(st.integers(0, 3)), b"\x00"]
         if o == "padded":
